@@ -65,7 +65,8 @@ class PaneBase:
     ):
         old_params = getattr(cls, '__parameters__', ())
         super().__init_subclass__(*args, **kwargs)
-        setattr(cls, '__parameters__', old_params + getattr(cls, '__parameters__', ()))
+        # parameters forwarded by a base (G[int, V]) may be declared again (Generic[V]): keep each once
+        setattr(cls, '__parameters__', tuple(dict.fromkeys(old_params + getattr(cls, '__parameters__', ()))))
 
         if rename is not None:
             if in_rename is not None or out_rename is not None:
